@@ -16,6 +16,7 @@ package main
 import (
 	"fmt"
 	"os"
+	"path/filepath"
 	"strconv"
 	"strings"
 )
@@ -87,9 +88,20 @@ func envSeed() uint64 {
 	return 20260927
 }
 
+// verifDir is the root of the verification tree: the directory that holds
+// bin/verif (so that a snapshot of /verif run elsewhere uses its own sources).
 func verifDir() string {
 	if d := os.Getenv("VERIF_DIR"); d != "" {
 		return d
+	}
+	if exe, err := os.Executable(); err == nil {
+		if r, err := filepath.EvalSymlinks(exe); err == nil {
+			exe = r
+		}
+		d := filepath.Dir(filepath.Dir(exe))
+		if _, err := os.Stat(filepath.Join(d, "harness")); err == nil {
+			return d
+		}
 	}
 	return "/verif"
 }
